@@ -54,6 +54,23 @@ impl<'a> IrEmitter<'a> {
         }
     }
 
+    /// Parenthesise an argument that becomes the receiver of an appended method call (`str(x)` -> `x.to_string()`)
+    /// unless it is already a primary expression: operators, casts (`len(xs)` is emitted as `xs.len() as i64`) and
+    /// dereferences (`xs[0]` is emitted as `*list_get(..)`) all bind less tightly than the method call.
+    fn group_method_receiver(arg: &TypedExpr, tokens: TokenStream) -> TokenStream {
+        match &arg.kind {
+            IrExprKind::Var { .. }
+            | IrExprKind::Int(_)
+            | IrExprKind::Float(_)
+            | IrExprKind::Bool(_)
+            | IrExprKind::String(_)
+            | IrExprKind::Call { .. }
+            | IrExprKind::MethodCall { .. }
+            | IrExprKind::Field { .. } => tokens,
+            _ => quote! { (#tokens) },
+        }
+    }
+
     /// Emit a builtin function call using enum-based dispatch.
     ///
     /// This handles calls that have been lowered to `IrExprKind::BuiltinCall`.
@@ -146,7 +163,7 @@ impl<'a> IrEmitter<'a> {
             }
             BuiltinFn::Str => {
                 if let Some(arg) = args.first() {
-                    let a = self.emit_expr(arg)?;
+                    let a = Self::group_method_receiver(arg, self.emit_expr(arg)?);
                     Ok(quote! { #a.to_string() })
                 } else {
                     Ok(quote! { String::new() })
@@ -399,7 +416,7 @@ impl<'a> IrEmitter<'a> {
             }
             BuiltinFnId::Str => {
                 if let Some(arg) = args.first() {
-                    let a = self.emit_expr(arg)?;
+                    let a = Self::group_method_receiver(arg, self.emit_expr(arg)?);
                     Ok(Some(quote! { #a.to_string() }))
                 } else {
                     Ok(None)
